@@ -37,6 +37,12 @@ theorem apeCore_definition (ref est : Pose Rat) :
     apeCore .angleDeg ref est = .angle (Pose.rel est ref).rot.angleCore.1 (Pose.rel est ref).rot.angleCore.2 true :=
   ⟨rfl, rfl, rfl, rfl, rfl, rfl⟩
 
+/-- the degree flag of an angle core agrees with the unit label of the metric (`APE.unit`) -/
+theorem ape_angle_unit_consistent (rel : PoseRelation) (ref est : Pose Rat) (c s : Rat) (d : Bool)
+    (h : apeCore rel ref est = .angle c s d) :
+    (d = true ↔ rel.apeUnit = "deg") ∧ (d = false ↔ rel.apeUnit = "rad") := by
+  cases rel <;> simp only [apeCore, reduceE] at h <;> first | (cases h) | (injection h with _ _ hd; subst hd; decide)
+
 /-- sequences of different length are refused, not truncated -/
 theorem ape_refuses_unequal (rel : PoseRelation) (ref est : List (Pose Rat)) (h : ref.length ≠ est.length) :
     ape rel ref est = .error .unequal := by
